@@ -548,6 +548,19 @@ _EXTRA11 = {
 for _k, _v in _EXTRA11.items():
     CHECKS[_k]["rule"] += _v
 
+_EXTRA12 = {
+    "C03": " Twelfth round: the transform-slot boundary triples of C02 (s2^, h^ in {0, 1, 2, q-1, q-2, (q+-1)/2} with the matching hash slot) under the panic monitor.",
+    "C05": " Twelfth round: the same seed for both parameter sets, back to back in a fresh thread, in both orders.",
+    "C06": " Twelfth round: lattice variants of a valid key whose F is in range while the implied, not serialized G leaves the 8-bit range.",
+    "C08": " Twelfth round: an object that has already signed is cloned, re-decoded and cloned again at several stages; original and copies sign in the same and in fresh threads.",
+    "C10": " Twelfth round: the generator records the bytes drawn by the signer's sampler and every recorded sampler output is compared with the "
+           "specification's SamplerZ on those bytes; 128 (512 thorough) Falcon-1024 keys are scanned for the largest sampler centres and the top ones join the trace keys.",
+    "C11": " Twelfth round: tower binomials c x^e (x^t - r) for every level t of the splitting of x^n+1 (one spectrum block zero, its sibling a single term), alone and plus a dense multiple of x^2t - r^2.",
+    "C16": " Twelfth round: signatures over reference-selected (salt, message) pairs with many early hash rejections, the salt dictated through the generator hook, judged by the reference.",
+}
+for _k, _v in _EXTRA12.items():
+    CHECKS[_k]["rule"] += _v
+
 NOT_APPLICABLE = {}
 
 ENGINES = [
